@@ -61,6 +61,9 @@ type eqOpts struct {
 	CompareFiles bool
 	ByCharClass  bool // enumerate counterexamples per character class of the symbolic data bytes v_*
 	Stub         oracle.ExtStub
+	// Twin: reachability witness of the harness. The reference output is perturbed on purpose; the path must then end
+	// in a difference. A twin that still "holds" means the harness never reaches or never checks its assertion.
+	Twin bool
 }
 
 // concretizeSource renders the program text under a model: symbolic bytes take their
@@ -149,6 +152,9 @@ func bashEquiv(r *Run, c *gosym.Ctx, sh Shape, o eqOpts) (out eqOutcome) {
 		return
 	}
 	refOut := gosym.Concat(in.Out...)
+	if o.Twin {
+		refOut = gosym.Concat(refOut, gosym.Conc("<twin>\n"))
+	}
 	mkOutcome := func(diff string, m map[string]uint64) eqOutcome {
 		x := eqOutcome{Shape: sh.Name, Kind: "diff", Diff: diff}
 		x.Src = concretizeSource(src, m)
